@@ -2,6 +2,7 @@ package export
 
 import (
 	"bytes"
+	"fmt"
 	"github.com/hneemann/parser2/funcGen"
 	"github.com/hneemann/parser2/value"
 )
@@ -75,6 +76,8 @@ func (j jsonExporter) String(str string) error {
 		switch r {
 		case '"':
 			j.b.WriteString("\\\"")
+		case '\\':
+			j.b.WriteString("\\\\")
 		case '\t':
 			j.b.WriteString("\\t")
 		case '\r':
@@ -82,7 +85,11 @@ func (j jsonExporter) String(str string) error {
 		case '\n':
 			j.b.WriteString("\\n")
 		default:
-			j.b.WriteRune(r)
+			if r < 0x20 {
+				fmt.Fprintf(j.b, "\\u%04x", r)
+			} else {
+				j.b.WriteRune(r)
+			}
 		}
 	}
 	j.b.WriteString("\"")
